@@ -10,8 +10,9 @@ From Coq Require Import List Arith Bool.
 From C17 Require Import Model.
 Import ListNotations.
 
-Inductive tab := TVars | TFuncs.
-Definition tab_eqb (a b : tab) : bool := match a, b with TVars, TVars | TFuncs, TFuncs => true | _, _ => false end.
+Inductive tab := TVars | TFuncs | TSlots.   (* TSlots: the slot map of one instance, guarded by the instance's locker *)
+Definition tab_eqb (a b : tab) : bool :=
+  match a, b with TVars, TVars | TFuncs, TFuncs | TSlots, TSlots => true | _, _ => false end.
 Record access := mkAc { a_tab : tab; a_write : bool; a_locked : bool }.
 Record tstate := mkTS { holder : option nat; within : list (option access) }.
 Inductive tev := TEnter (a : access) | TLeave.
@@ -65,3 +66,24 @@ Definition lop_uses (o : lop) : list (tab * bool) :=
   | LReadLocal | LArithLocal | LQuote | LConsLocal | LIfLocal | LPrognLocal => []
   end.
 Definition uses_tables (o : lop) : bool := match lop_uses o with [] => false | _ => true end.
+
+(* ---- the slot map of an instance (pkg/clos/hasslots.go: `vars`, `locker`; flavors: the instance's Scope).  The
+   same discipline with the instance's own lock: after (set-synchronized o t) every slot operation takes it around
+   the map access; an unsynchronized instance has the no-op locker.  The operations the harness probes, for
+   standard-object and flavors instances, and whether they read / write the slot map ---- *)
+Inductive iop :=
+| ISlotValue | ISetfSlotValue | ISlotBoundp | ISlotMakunbound | ISlotExistsp
+| IAccessorRead | IReaderRead | IAccessorWrite | IWriterWrite | IWithSlotsRead | IWithSlotsWrite
+| ISendGet | ISendSet | IMethodReadsVar | IMethodSetsVar
+| ISynchronizedp | IJustTheInstance.
+Definition iop_uses (o : iop) : list (tab * bool) :=
+  match o with
+  | ISlotValue | ISlotBoundp | ISlotExistsp | IAccessorRead | IReaderRead | IWithSlotsRead
+  | ISendGet | IMethodReadsVar => [(TSlots, false)]                       (* HasSlots.SlotValue / Scope.get *)
+  | ISetfSlotValue | ISlotMakunbound | IAccessorWrite | IWriterWrite | IWithSlotsWrite
+  | ISendSet | IMethodSetsVar => [(TSlots, true)]                         (* HasSlots.SetSlotValue / Scope.set *)
+  | ISynchronizedp | IJustTheInstance => []
+  end.
+Definition uses_slots (o : iop) : bool := match iop_uses o with [] => false | _ => true end.
+(* must the operation wait while another routine is inside a slot access (holds the instance lock)? *)
+Definition must_wait (o : iop) (synchronized : bool) : bool := synchronized && uses_slots o.
